@@ -34,9 +34,21 @@ PROFILES = {
 }
 
 
+def policy_value(rng):
+    """One delay of the scripted retry policy, in 1/8 s: mostly short (fast scenarios), but every magnitude a
+    configured policy can ask for occurs - around the usual caps (15 s, 30 s, 60 s) and far beyond - so that a
+    delay which the code clamps, rounds or otherwise overrides is seen (the model calls the policy verbatim)."""
+    m = rng.random()
+    if m < 0.72:
+        return Fraction(rng.choice([0, 1, 1, 2, 3, 4, 8, 12, 20]), 8)
+    if m < 0.9:
+        return Fraction(rng.choice([40, 80, 119, 120, 121, 128, 160, 239, 240, 241, 479, 480]), 8)
+    return Fraction(rng.choice([481, 800, 4800, 28800, 8 * 86400, 8 * 86400 * 365, 8 * 10 ** 9 + 1]), 8)
+
+
 def gen_header(rng):
     n = rng.randrange(0, 5)
-    pol = [show_rat(Fraction(rng.choice([0, 1, 1, 2, 3, 4, 8, 12, 20]), 8)) for _ in range(n)] or ["1/2"]
+    pol = [show_rat(policy_value(rng)) for _ in range(n)] or ["1/2"]
     return (rng.randrange(1, 4), rng.choice([9092, 9093, 1234]), pol)
 
 
@@ -99,6 +111,8 @@ class Online(object):
         c += [("disconnect", w["disconnect"]), ("close", w["close"]), ("meta", w["meta"]), ("wfail", w["wfail"])]
         c.append(("stubborn", 0.25 if (r.attempt_pending() or r.world.net.stubborn) else 0.04))
         c.append(("sync", self.sync_rate * (3.0 if r.sync != "none" else 1.0)))
+        # what the endpoint's Deferred fails with when close() cancels a pending attempt
+        c.append(("ckind", 0.5 if r.attempt_pending() else 0.05))
         # rarely: an event the state does not enable (both sides must call it a no-op)
         c += [("connOk", 0.05), ("lost", 0.05), ("rawbytes", 0.05)]
         return c
@@ -190,6 +204,10 @@ class Online(object):
             self.emit("stubborn %d" % (0 if r.world.net.stubborn else 1))
             if r.world.net.stubborn and r.attempt_pending() and rng.random() < 0.7:
                 self.emit("close")  # the case the switch exists for: close() while the attempt is pending
+        elif k == "ckind":
+            self.emit("ckind %s" % rng.choice([x for x in ("cancelled", "connecting", "other") if x != r.world.net.cancel_kind]))
+            if r.attempt_pending() and rng.random() < 0.6:
+                self.emit("close")  # the case the switch exists for: close() while the attempt is pending
         elif k == "sync":
             # a synchronously failing endpoint with a zero retry delay is a busy loop (the timer re-arms itself for
             # the current instant for ever, in Twisted's Clock as in a reactor): not generated
@@ -205,6 +223,8 @@ class Online(object):
     def generate(self):
         guard = 0
         after_close = 0
+        if self.rng.random() < 0.35:  # an endpoint kind for the whole scenario (real Twisted endpoints: "connecting")
+            self.emit("ckind %s" % self.rng.choice(["connecting", "connecting", "other"]))
         while len(self.events) < self.maxlen and guard < self.maxlen * 6 and after_close < 4:
             guard += 1
             self.step()
